@@ -200,7 +200,8 @@ def run(ctx):
         else:
             ctx.viol("F3", fa, node.ast, "CountError for %s is guarded by %s; the specified condition is `len %s %s` (strict): "
                      "a bound equal to the match count is treated wrongly" % (bound, cmp_seen, "<" if bound == "mincount" else ">", bound))
-        exc = node.ast.exc
+        from .common import expand_straightline
+        exc = expand_straightline(node, node.ast.exc)
         names = {x.id for x in ast.walk(exc) if isinstance(x, ast.Name)}
         if bound in names and (names & lens or any(is_len(x) for x in ast.walk(exc))):
             ctx.inst("F3", fa, node.ast, "message names both numbers")
@@ -250,6 +251,25 @@ def run(ctx):
                         if isinstance(st_, ast.Assign) and isinstance(st_.value, ast.Constant) and st_.value.value is False \
                                 and any(isinstance(x, ast.Name) and x.id in verdict_names for x in st_.targets):
                             false_on_missing = True
+    # verdict initialised to False before the try, bound inside it only by the comparison, handler leaves it alone
+    # and the function returns the verdict: a failing getattr leaves the initial False
+    if protected and not false_on_missing:
+        body = [s_ for s_ in fb.node.body if not (isinstance(s_, ast.Expr) and isinstance(s_.value, ast.Constant))]
+        for i, t in enumerate(body):
+            if not isinstance(t, ast.Try) or t.finalbody:
+                continue
+            hs = [h for h in t.handlers if h.type is not None and "AttributeError" in norm(h.type)]
+            for v in verdict_names:
+                init = [s_ for s_ in body[:i] if isinstance(s_, ast.Assign) and len(s_.targets) == 1 and norm(s_.targets[0]) == v]
+                stores_in_handlers = [x for h in t.handlers for x in ast.walk(h) if isinstance(x, ast.Name) and x.id == v
+                                      and isinstance(x.ctx, ast.Store)]
+                rets = [r for r in walk_own(fb.node) if isinstance(r, ast.Return)]
+                exits_in_handlers = [x for h in hs for x in ast.walk(h) if isinstance(x, (ast.Return, ast.Raise))]
+                if hs and len(init) == 1 and isinstance(init[0].value, ast.Constant) and init[0].value.value is False \
+                        and not stores_in_handlers and not exits_in_handlers and rets \
+                        and all(isinstance(r.value, ast.Name) and r.value.id == v for r in rets) \
+                        and all(isinstance(s_, ast.Return) for s_ in body[i + 1:]):
+                    false_on_missing = True
     if ga and all(len(g.args) >= 3 for g in ga):
         sentinel = True
         for g in ga:
